@@ -39,16 +39,19 @@ theorem defers_eval : defers .raw = false ∧ defers .runner = false ∧ defers 
     Gen.Default.samplesDefersCleanup]
 
 /-- **an error leaves every crop file in place**, at whichever stage it occurs (results not ready or unreadable, output
-description not matching, merge conflict or save error in the farmer's sync), for every farmer kind and option set -/
+description not matching, merge conflict or save error in the farmer's sync), for every farmer kind and option set;
+whatever other processes did to the directory while the farmer was syncing (`late`) is all that can have changed -/
 theorem c12_err_leaves_crop (P : Perms) (nl : β → β) (k : FarmerKind) (env : Env) (s : St β) (o : ReapOpts) (e : FErr)
-    (h : (reapFarmer P nl k env s o).res = .error e) :
-    (reapFarmer P nl k env s o).st.dir = s.dir := by
+    (late : Option (Dir β) → Option (Dir β))
+    (h : (reapFarmer P nl k env s o late).res = .error e) :
+    (reapFarmer P nl k env s o late).st.dir = s.dir ∨
+      (e = .deliver ∧ (reapFarmer P nl k env s o late).st.dir = late s.dir) := by
   obtain ⟨d1, d2, d3, d4⟩ := defers_eval
   unfold reapFarmer at h ⊢
   cases k <;> simp only [d1, d2, d3, d4, Bool.false_eq_true, if_false, if_true, Bool.false_and, Bool.true_and] at h ⊢
   all_goals
     split
-    · rfl
+    · exact Or.inl rfl
     · rename_i s1 info results hlin
       have hdir := reapLinear_dir P nl s s1 _ info results hlin
       simp only [hlin] at h
@@ -56,15 +59,27 @@ theorem c12_err_leaves_crop (P : Perms) (nl : β → β) (k : FarmerKind) (env :
         cases hcu : cleanUpResolved o.cleanUp o.allowIncomplete <;>
         simp_all [removeDir, cleanUp_some_false]
 
+/-- the same without interference: the directory is exactly as it was -/
+theorem c12_err_leaves_crop_alone (P : Perms) (nl : β → β) (k : FarmerKind) (env : Env) (s : St β) (o : ReapOpts) (e : FErr)
+    (h : (reapFarmer P nl k env s o).res = .error e) :
+    (reapFarmer P nl k env s o).st.dir = s.dir := by
+  rcases c12_err_leaves_crop P nl k env s o e id h with h1 | ⟨_, h2⟩
+  · exact h1
+  · simpa using h2
+
 /-- **deleted iff delivered and clean-up resolved**: after a successful reap of an existing crop the directory is gone
 exactly when the resolved `clean_up` is true, and for Runner / Harvester / Sampler crops the data was delivered (set as
 the runner's last result; merged and saved for a harvester / sampler) — the deletion comes after that in the order of
-effects -/
+effects.  This holds whatever other processes do to the directory during the sync (`late`), as long as they do not
+remove it themselves: in particular growers that complete the crop *while* a partial reap is syncing do not cause it
+to be deleted. -/
 theorem c12_deleted_iff (P : Perms) (nl : β → β) (k : FarmerKind) (env : Env) (s : St β) (o : ReapOpts) (d : Dir β)
-    (r : List β) (hd : s.dir = some d) (h : (reapFarmer P nl k env s o).res = .ok r) :
-    ((reapFarmer P nl k env s o).st.dir = none ↔ cleanUpResolved o.cleanUp o.allowIncomplete = true) ∧
-    (k ≠ .raw → (reapFarmer P nl k env s o).delivered = true) := by
+    (late : Option (Dir β) → Option (Dir β)) (hlate : ∀ x, late (some x) ≠ none)
+    (r : List β) (hd : s.dir = some d) (h : (reapFarmer P nl k env s o late).res = .ok r) :
+    ((reapFarmer P nl k env s o late).st.dir = none ↔ cleanUpResolved o.cleanUp o.allowIncomplete = true) ∧
+    (k ≠ .raw → (reapFarmer P nl k env s o late).delivered = true) := by
   obtain ⟨d1, d2, d3, d4⟩ := defers_eval
+  have hl := hlate d
   unfold reapFarmer at h ⊢
   cases k <;> simp only [d1, d2, d3, d4, Bool.false_eq_true, if_false, if_true, Bool.false_and, Bool.true_and] at h ⊢
   all_goals
@@ -134,7 +149,7 @@ theorem c12_retry_exact (P : Perms) (nl : β → β) (k : FarmerKind) (env : Env
     (h : (reapFarmer P nl k env s o).res = .error e) :
     (reapLinear P nl (reapFarmer P nl k env s o).st o').map (fun x => (x.2.1.sweep.locs.length, x.2.2)) =
       (reapLinear P nl s o').map (fun x => (x.2.1.sweep.locs.length, x.2.2)) :=
-  reapLinear_congr P nl s _ o' (c12_err_leaves_crop P nl k env s o e h)
+  reapLinear_congr P nl s _ o' (c12_err_leaves_crop_alone P nl k env s o e h)
 
 /-- **options**: `clean_up=None` means `not allow_incomplete`; explicit values are honoured -/
 theorem c12_options (a b : Bool) :
